@@ -250,6 +250,14 @@ def _enum(quick):
                     n["mc_off"] = mc_off
                 yield {"src": 0o1, "dst": 0o22, "type": 100, "msg": "d2", "tx_timeout": 10, "route_timeout": 60, "fault": None,
                        "nodes": nodes, "bg": {"src": 0o11, "dst": 0o3, "type": 101, "lead_us": lead}}
+        # a frame addressed to the waiting sender itself lands in its RX FIFO right behind the NETWORK_ACK (slow sender MCU,
+        # the other frame's start swept in 250 us steps)
+        for lead in range(-9000, 3001, 250 if not quick else 500):
+            nodes = _topology(0o1, 0o2, [0o11])
+            for n in nodes:
+                n["mcu"] = {"spi": 400, "jit": 0, "seed": 1, "poll": 100} if n["addr"] == 0o1 else {"spi": 20, "jit": 0, "seed": 2, "poll": 100}
+            yield {"src": 0o1, "dst": 0o2, "type": 100, "msg": "d3", "tx_timeout": 25, "route_timeout": 75, "fault": None,
+                   "nodes": nodes, "bg": {"src": 0o11, "dst": 0o1, "type": 10, "lead_us": lead}}
     return gen
 
 
